@@ -386,6 +386,36 @@ pub fn configs(thorough: bool) -> Vec<Cfg> {
             }
         }
     }
+    if thorough {
+        // every write history of 1..=5 seconds over the gap alphabet {next second, one second
+        // skipped, a minute later, the next day}, x resource pattern x size limit x file count
+        let alphabet = [1u64, 2, 61, 86400];
+        let mut level: Vec<Vec<u64>> = vec![vec![]];
+        let mut all: Vec<Vec<u64>> = vec![];
+        for _ in 0..5 {
+            let mut next = vec![];
+            for g in &level {
+                for a in alphabet {
+                    let mut h = g.clone();
+                    h.push(a);
+                    next.push(h);
+                }
+            }
+            all.extend(next.iter().cloned());
+            level = next;
+        }
+        let mut k = 0usize;
+        for gaps in &all {
+            for res in &res_patterns {
+                for max_size in [1u64, 120, 500, 1 << 20] {
+                    for max_files in [1usize, 2, 3, 4] {
+                        k += 1;
+                        v.push(Cfg { gaps: gaps.clone(), res: res.clone(), max_size, max_files, crash: k % 61 == 0 });
+                    }
+                }
+            }
+        }
+    }
     v
 }
 
